@@ -182,6 +182,13 @@ theorem resolveRhs_congr {c : Cfg} {w w' : World} (h : w'.src = w.src) (r : Rhs)
     funext a; cases a <;> simp [resolveAtom, hr]
   cases r <;> simp [resolveRhs, ha]
 
+theorem skipsRhs_congr {c : Cfg} {w w' : World} (h : w'.src = w.src) (r : Rhs) (n : Bool) :
+    skipsRhs c w' r n = skipsRhs c w r n := by
+  have hr := readSrc_congr h
+  have ha : Atom.skips c w' = Atom.skips c w := by
+    funext a; cases a <;> simp [Atom.skips, hr]
+  cases r <;> simp [skipsRhs, ha]
+
 /-- the dependencies of a link as `_update_ref` / `_sync_refs` compute them (`self_[name].nested_refs`) -/
 def ldeps (c : Cfg) (t : Nat) (kv : Nat × Rhs) : List SrcP :=
   match c.decl t kv.1 with
@@ -190,9 +197,11 @@ def ldeps (c : Cfg) (t : Nat) (kv : Nat × Rhs) : List SrcP :=
 
 /-- the invariant behind C08 -/
 structure Inv (c : Cfg) (w : World) : Prop where
-  /-- every live link whose resolved value is valid for the target: the instance holds that value -/
+  /-- every live link that has a value to offer (its evaluation does not raise Skip) and whose resolved
+  value is valid for the target: the instance holds that value -/
   tracks : ∀ (t : Nat) (tg : Target) (p : Nat) (r : Rhs) (d : PDecl) (v : Val), w.tgts[t]? = some tg → (p, r) ∈ tg.refs → c.decl t p = some d →
-    resolveRhs c w r d.nestedRefs = some v → d.valid v = true → tg.vals[p]? = some (some v)
+    resolveRhs c w r d.nestedRefs = some v → skipsRhs c w r d.nestedRefs = false → d.valid v = true →
+    tg.vals[p]? = some (some v)
   /-- every (existing) dependency of every live link carries the target's `_sync_refs` watcher -/
   watched : ∀ (t : Nat) (tg : Target) (p : Nat) (r : Rhs) (s i : Nat), w.tgts[t]? = some tg → (p, r) ∈ tg.refs → (s, i) ∈ ldeps c t (p, r) →
     i < c.nsp → s < w.watch.length → ∃ ws names, w.watch[s]? = some ws ∧ (t, names) ∈ ws ∧ i ∈ names
@@ -261,7 +270,8 @@ theorem inv_update_target {c : Cfg} {w : World} {t : Nat} {tg tg' : Target} {wat
     (hi : Inv c w) (htg : w.tgts[t]? = some tg)
     (hA : ∀ (q : Nat) (r : Rhs), (q, r) ∈ tg'.refs →
       ((q, r) ∈ tg.refs ∧ tg'.vals[q]? = tg.vals[q]?) ∨
-      (∀ d v, c.decl t q = some d → resolveRhs c w r d.nestedRefs = some v → d.valid v = true → tg'.vals[q]? = some (some v)))
+      (∀ d v, c.decl t q = some d → resolveRhs c w r d.nestedRefs = some v → skipsRhs c w r d.nestedRefs = false →
+        d.valid v = true → tg'.vals[q]? = some (some v)))
     (hB : ∀ (q : Nat) (r : Rhs) (s i : Nat), (q, r) ∈ tg'.refs → (s, i) ∈ ldeps c t (q, r) → i < c.nsp → s < watch'.length →
       ∃ ws names, watch'[s]? = some ws ∧ (t, names) ∈ ws ∧ i ∈ names)
     (hB' : ∀ (t' s : Nat) (ws : List (Nat × List Nat)) (names : List Nat), t' ≠ t → w.watch[s]? = some ws → (t', names) ∈ ws →
@@ -277,15 +287,16 @@ theorem inv_update_target {c : Cfg} {w : World} {t : Nat} {tg tg' : Target} {wat
     Inv c { w with watch := watch', tgts := w.tgts.set t tg' } := by
   have hget := fun t' x => tgts_set_get w.tgts t t' x tg htg
   constructor
-  · intro t' tg'' q r d' v ht hm hd' hres hv
+  · intro t' tg'' q r d' v ht hm hd' hres hsk hv
     simp only [hget] at ht
     have hres' : resolveRhs c w r d'.nestedRefs = some v := by rw [← hres]; exact (resolveRhs_congr rfl r _).symm
+    have hsk' : skipsRhs c w r d'.nestedRefs = false := by rw [← hsk]; exact (skipsRhs_congr rfl r _).symm
     split at ht
     · subst_vars; simp at ht; subst ht
       rcases hA q r hm with ⟨hm', hval⟩ | h2
-      · rw [hval]; exact hi.tracks _ _ _ _ _ _ htg hm' hd' hres' hv
-      · exact h2 d' v hd' hres' hv
-    · exact hi.tracks _ _ _ _ _ _ ht hm hd' hres' hv
+      · rw [hval]; exact hi.tracks _ _ _ _ _ _ htg hm' hd' hres' hsk' hv
+      · exact h2 d' v hd' hres' hsk' hv
+    · exact hi.tracks _ _ _ _ _ _ ht hm hd' hres' hsk' hv
   · intro t' tg'' q r s i ht hm hdep hi' hs
     simp only [hget] at ht
     split at ht
@@ -328,7 +339,8 @@ theorem rewatch_inv {c : Cfg} {t : Nat} {w : World} {tg : Target} {ds : List PDe
     (hi : Inv c w) (htg : w.tgts[t]? = some tg) (hds : c.decls[t]? = some ds)
     (hA : ∀ (q : Nat) (r : Rhs), (q, r) ∈ refs' →
       ((q, r) ∈ tg.refs ∧ vals'[q]? = tg.vals[q]?) ∨
-      (∀ d v, c.decl t q = some d → resolveRhs c w r d.nestedRefs = some v → d.valid v = true → vals'[q]? = some (some v)))
+      (∀ d v, c.decl t q = some d → resolveRhs c w r d.nestedRefs = some v → skipsRhs c w r d.nestedRefs = false →
+        d.valid v = true → vals'[q]? = some (some v)))
     (hC : keysNodup refs')
     (hE : ∀ (q : Nat) (r : Rhs) (d : PDecl), (q, r) ∈ refs' → c.decl t q = some d → d.allowRefs = true)
     (hD : ∀ (q : Nat) (v : Val), tg.vals[q]? = some (some v) → ∃ v', vals'[q]? = some (some v')) :
@@ -391,21 +403,18 @@ theorem rewatch_inv {c : Cfg} {t : Nat} {w : World} {tg : Target} {ds : List PDe
         · exact absurd (Prod.mk.inj e).1 hne
 
 /-- a store at (t, p) followed by the deferred link change keeps the invariant -/
-theorem relink_inv {c : Cfg} {t p : Nat} {d : PDecl} {v0 : Val} {rl : Relink} {w : World} {tg : Target}
+theorem relink_inv {c : Cfg} {t p : Nat} {d : PDecl} {rl : Relink} {w : World} {tg : Target}
     {vals' : List (Option Val)}
     (hi : Inv c w) (htg : w.tgts[t]? = some tg) (hd : c.decl t p = some d)
-    (hp : vals'[p]? = some (some v0)) (hq : ∀ q, q ≠ p → vals'[q]? = tg.vals[q]?)
+    (hD : ∀ (q : Nat) (v : Val), tg.vals[q]? = some (some v) → ∃ v', vals'[q]? = some (some v'))
+    (hq : ∀ q, q ≠ p → vals'[q]? = tg.vals[q]?)
     (hrl : match rl with
       | .keep => dictGet tg.refs p = none
       | .drop => True
-      | .link r => resolveRhs c w r d.nestedRefs = some v0 ∧ d.allowRefs = true) :
+      | .link r => (∀ v, resolveRhs c w r d.nestedRefs = some v → skipsRhs c w r d.nestedRefs = false →
+          vals'[p]? = some (some v)) ∧ d.allowRefs = true) :
     Inv c (applyRelink c t p rl { w with tgts := w.tgts.set t { tg with vals := vals' } }) := by
   have hget := fun t' x => tgts_set_get w.tgts t t' x tg htg
-  have hD : ∀ (q : Nat) (v : Val), tg.vals[q]? = some (some v) → ∃ v', vals'[q]? = some (some v') := by
-    intro q v hv
-    by_cases e : q = p
-    · subst e; exact ⟨v0, hp⟩
-    · exact ⟨v, by rw [hq q e]; exact hv⟩
   obtain ⟨ds, hds⟩ : ∃ ds, c.decls[t]? = some ds := by
     unfold Cfg.decl at hd
     cases h : c.decls[t]? with
@@ -442,10 +451,10 @@ theorem relink_inv {c : Cfg} {t p : Nat} {d : PDecl} {v0 : Val} {rl : Relink} {w
       (by
         intro q r' hm
         rcases mem_dictSet.1 hm with e | ⟨hm', hne⟩
-        · right; intro d' v hd' hres _
+        · right; intro d' v hd' hres hsk _
           have e1 := (Prod.mk.inj e).1; have e2 := (Prod.mk.inj e).2; subst e1 e2
           rw [hd] at hd'; cases hd'
-          rw [hrl.1] at hres; cases hres; exact hp
+          exact hrl.1 v hres hsk
         · exact Or.inl ⟨hm', hq q hne⟩)
       (keysNodup_dictSet p r (hi.nodup _ _ htg))
       (by
@@ -456,15 +465,18 @@ theorem relink_inv {c : Cfg} {t p : Nat} {d : PDecl} {v0 : Val} {rl : Relink} {w
         · exact hi.allow _ _ _ _ _ htg hm' hd') hD
     simpa using this
 
+/-- what the setter may assume about the deferred link change -/
+def relinkCond (c : Cfg) (w : World) (d : PDecl) (tg : Target) (p : Nat) (v : Option Val) : Relink → Prop
+  | .keep => dictGet tg.refs p = none
+  | .drop => True
+  | .link r => (resolveRhs c w r d.nestedRefs = v ∨ skipsRhs c w r d.nestedRefs = true) ∧ d.allowRefs = true
+
 /-- the setter keeps the invariant, whatever its outcome (instance route: the assigned value is
 plain or the resolved value of the reference that becomes the link) -/
 theorem setCore_inv {c : Cfg} {t p : Nat} {d : PDecl} {old : Val} {v : Option Val} {rl : Relink}
     {w w' : World} {tg : Target} {res : Res} {evs : List (Nat × Val)}
     (hi : Inv c w) (htg : w.tgts[t]? = some tg) (hd : c.decl t p = some d) (hold : tg.read p = some old)
-    (hrl : match rl with
-      | .keep => dictGet tg.refs p = none
-      | .drop => True
-      | .link r => resolveRhs c w r d.nestedRefs = v ∧ d.allowRefs = true)
+    (hrl : relinkCond c w d tg p v rl)
     (h : setCore c t p d old v rl false w = (res, w', evs)) : Inv c w' := by
   cases res with
   | raised e => rw [(setCore_raised h).1]; exact hi
@@ -477,19 +489,73 @@ theorem setCore_inv {c : Cfg} {t p : Nat} {d : PDecl} {old : Val} {v : Option Va
       · exfalso
         have : tg.vals[p]? = none := by simp; omega
         simp [Target.read, this] at hold
-    apply relink_inv hi htg hd (v0 := v0)
-    · rcases hvals with e | ⟨e, hid, hc, _⟩
+    have hp : vals'[p]? = some (some v0) := by
+      rcases hvals with e | ⟨e, hid, hc, _⟩
       · subst e; simp [hlt]
       · subst e
         obtain ⟨v1, hv1⟩ := hi.consts _ _ _ _ htg hd hc
         have := read_of_vals hv1
         rw [hold] at this; cases this
         rw [identical_eq hid]; exact hv1
+    apply relink_inv hi htg hd
+    · intro q v hv
+      by_cases e : q = p
+      · subst e; exact ⟨v0, hp⟩
+      · refine ⟨v, ?_⟩
+        rcases hvals with e' | ⟨e', _⟩
+        · subst e'; rw [List.getElem?_set_ne (fun h => e h.symm)]; exact hv
+        · subst e'; exact hv
     · intro q hq
       rcases hvals with e | ⟨e, _⟩
       · subst e; rw [List.getElem?_set_ne (by omega)]
       · subst e; rfl
-    · cases rl <;> simp_all
+    · cases rl with
+      | keep => simpa [relinkCond] using hrl
+      | drop => trivial
+      | link r =>
+        simp only [relinkCond] at hrl ⊢
+        refine ⟨?_, hrl.2⟩
+        intro v hres hsk
+        rcases hrl.1 with e | e
+        · rw [hres] at e; cases e; exact hp
+        · rw [hsk] at e; cases e
+
+theorem world_set_self (w : World) (t : Nat) (tg : Target) (h : w.tgts[t]? = some tg) :
+    { w with tgts := w.tgts.set t tg } = w := by
+  have : w.tgts.set t tg = w.tgts := by
+    apply List.ext_getElem?; intro i; rw [List.getElem?_set]; grind
+  cases w; simp_all
+
+/-- which link change `resolveForSet` defers, and what it knows about the value -/
+theorem resolveForSet_cond {c : Cfg} {d : PDecl} {rhs : Rhs} {w : World} {tg : Target} {t p : Nat} {v : Option Val} {rl : Relink}
+    (hallow : ∀ r0, dictGet tg.refs p = some r0 → d.allowRefs = true)
+    (hres : resolveForSet c d ((dictGet tg.refs p).isSome) rhs w = some (v, rl)) :
+    relinkCond c w d tg p v rl ∧ (skipsForSet c d rhs w = true → rl = .link rhs) := by
+  unfold resolveForSet at hres
+  unfold skipsForSet
+  split at hres
+  · simp at hres
+  · split at hres
+    · rename_i hna
+      split at hres
+      · simp at hres; obtain ⟨_, e⟩ := hres; subst e
+        refine ⟨?_, by simp_all⟩
+        simp only [relinkCond]
+        cases hg : dictGet tg.refs p with
+        | none => rfl
+        | some r0 => have := hallow r0 hg; simp_all
+      · simp at hres
+    · split at hres
+      · rename_i hempty
+        simp at hres; obtain ⟨_, e⟩ := hres
+        refine ⟨?_, by simp_all⟩
+        by_cases hl : (dictGet tg.refs p).isSome = true
+        · simp [hl] at e; subst e; trivial
+        · simp [hl] at e; subst e; simpa [relinkCond] using hl
+      · split at hres
+        · simp at hres; obtain ⟨e1, e2⟩ := hres; subst e1 e2
+          exact ⟨⟨Or.inl (by assumption), by simp_all⟩, fun _ => rfl⟩
+        · simp at hres
 
 theorem setInst_inv {c : Cfg} {t p : Nat} {rhs : Rhs} {w w' : World} {res : Res} {evs : List (Nat × Val)}
     (hi : Inv c w) (h : setInst c t p rhs w = (res, w', evs)) : Inv c w' := by
@@ -498,28 +564,21 @@ theorem setInst_inv {c : Cfg} {t p : Nat} {rhs : Rhs} {w w' : World} {res : Res}
   · rename_i tg d htg hd
     split at h
     · rename_i old v rl hold hres
-      refine setCore_inv hi htg hd hold ?_ h
-      unfold resolveForSet at hres
-      split at hres
-      · simp at hres
-      · split at hres
-        · split at hres
-          · simp at hres; obtain ⟨_, e⟩ := hres; subst e
-            simp only
-            cases hg : dictGet tg.refs p with
-            | none => rfl
-            | some r0 =>
-              have := hi.allow _ _ _ _ _ htg (mem_of_dictGet hg) hd
-              simp_all
-          · simp at hres
-        · split at hres
-          · simp at hres; obtain ⟨_, e⟩ := hres
-            by_cases hl : (dictGet tg.refs p).isSome = true
-            · simp [hl] at e; subst e; trivial
-            · simp [hl] at e; subst e; simpa using hl
-          · split at hres
-            · simp at hres; obtain ⟨e1, e2⟩ := hres; subst e1 e2; simp_all
-            · simp at hres
+      obtain ⟨hcond, hskip⟩ := resolveForSet_cond (t := t)
+        (fun r0 hg => hi.allow _ _ _ _ _ htg (mem_of_dictGet hg) hd) hres
+      split at h
+      · -- the reference has no value to offer: only the link changes
+        rename_i hsk
+        have hrl := hskip hsk
+        subst hrl
+        simp at h
+        obtain ⟨_, hw, _⟩ := h; subst hw
+        have hskips : skipsRhs c w rhs d.nestedRefs = true := by
+          unfold skipsForSet at hsk; simp at hsk; exact hsk.2
+        have := relink_inv (rl := .link rhs) (vals' := tg.vals) hi htg hd (fun q v hv => ⟨v, hv⟩) (fun _ _ => rfl)
+          ⟨(fun v _ hns => by rw [hskips] at hns; cases hns), hcond.2⟩
+        rwa [world_set_self w t tg htg] at this
+      · exact setCore_inv hi htg hd hold hcond h
     · simp at h; rw [← h.2.1]; exact hi
   · simp at h; rw [← h.2.1]; exact hi
 
@@ -619,12 +678,6 @@ theorem ctxExit_inv {c : Cfg} {w w' : World} {res : Res} {log : List Entry}
   · exact update_inv (inv_stack _ hi) h
 
 /-! ### C08: propagation (`_sync_refs`) -/
-
-theorem world_set_self (w : World) (t : Nat) (tg : Target) (h : w.tgts[t]? = some tg) :
-    { w with tgts := w.tgts.set t tg } = w := by
-  have : w.tgts.set t tg = w.tgts := by
-    apply List.ext_getElem?; intro i; rw [List.getElem?_set]; grind
-  cases w; simp_all
 
 /-- what the writes of `_sync_refs` do to the world: only the values of target t change; keys that
 are not written keep their value; with distinct keys and an `ok` outcome every written key holds
@@ -772,6 +825,7 @@ theorem syncRefs_spec {c : Cfg} {t : Nat} {d : SrcP} {w w' : World} {tg : Target
       (∀ (q : Nat), ¬ dependent c t d tg.refs q → vals'[q]? = tg.vals[q]?) ∧
       (∀ (q : Nat) (v0 : Val), tg.vals[q]? = some (some v0) → ∃ v1, vals'[q]? = some (some v1)) ∧
       (res = .ok → ∀ q r, (q, r) ∈ tg.refs → d ∈ ldeps c t (q, r) →
+        (∀ dcl, c.decl t q = some dcl → skipsRhs c w r dcl.nestedRefs = false) →
         ∃ dcl v, c.decl t q = some dcl ∧ resolveRhs c w r dcl.nestedRefs = some v ∧ dcl.valid v = true ∧
           vals'[q]? = some (some v)) := by
   have trivial_case : w' = w → res ≠ .ok →
@@ -779,6 +833,7 @@ theorem syncRefs_spec {c : Cfg} {t : Nat} {d : SrcP} {w w' : World} {tg : Target
       (∀ (q : Nat), ¬ dependent c t d tg.refs q → vals'[q]? = tg.vals[q]?) ∧
       (∀ (q : Nat) (v0 : Val), tg.vals[q]? = some (some v0) → ∃ v1, vals'[q]? = some (some v1)) ∧
       (res = .ok → ∀ q r, (q, r) ∈ tg.refs → d ∈ ldeps c t (q, r) →
+        (∀ dcl, c.decl t q = some dcl → skipsRhs c w r dcl.nestedRefs = false) →
         ∃ dcl v, c.decl t q = some dcl ∧ resolveRhs c w r dcl.nestedRefs = some v ∧ dcl.valid v = true ∧
           vals'[q]? = some (some v)) := by
     intro hw hne; subst hw
@@ -792,7 +847,8 @@ theorem syncRefs_spec {c : Cfg} {t : Nat} {d : SrcP} {w w' : World} {tg : Target
     · rename_i updates hmap
       obtain ⟨hkeys, hfrom, hto⟩ := mapM_pairs _ _ _ hmap
       have hit_mem : ∀ kv, kv ∈ tg.refs.filter (fun kv => match ds[kv.1]? with
-            | some pd => (depsOf kv.2 pd.nestedRefs).contains d | none => false) ↔ kv ∈ tg.refs ∧ d ∈ ldeps c t kv := by
+            | some pd => (depsOf kv.2 pd.nestedRefs).contains d && !skipsRhs c w kv.2 pd.nestedRefs | none => false) ↔
+            kv ∈ tg.refs ∧ d ∈ ldeps c t kv ∧ ∀ dcl, c.decl t kv.1 = some dcl → skipsRhs c w kv.2 dcl.nestedRefs = false := by
         intro kv
         simp only [List.mem_filter, ldeps, decl_of_decls hds]
         cases ds[kv.1]? <;> simp
@@ -809,9 +865,9 @@ theorem syncRefs_spec {c : Cfg} {t : Nat} {d : SrcP} {w w' : World} {tg : Target
           apply ha
           intro v hm
           obtain ⟨r, hr, _⟩ := hfrom q v hm
-          exact hq ⟨r, ((hit_mem _).1 hr).1, ((hit_mem _).1 hr).2⟩
-        · intro hok q r hm hdep
-          obtain ⟨v, hv, hg⟩ := hto q r ((hit_mem _).2 ⟨hm, hdep⟩)
+          exact hq ⟨r, ((hit_mem _).1 hr).1, ((hit_mem _).1 hr).2.1⟩
+        · intro hok q r hm hdep hns
+          obtain ⟨v, hv, hg⟩ := hto q r ((hit_mem _).2 ⟨hm, hdep, hns⟩)
           have hnd' : (updates.map (·.1)).Nodup := by
             rw [hkeys]
             exact List.Nodup.sublist (List.Sublist.map _ List.filter_sublist) hnd
@@ -836,6 +892,7 @@ structure SyncPost (c : Cfg) (d : SrcP) (ws : List Nat) (res : Res) (w w' : Worl
       (∀ (q : Nat) (v0 : Val), tg.vals[q]? = some (some v0) → ∃ v1, vals'[q]? = some (some v1)) ∧
       (t ∉ ws → vals' = tg.vals) ∧
       (res = .ok → t ∈ ws → ∀ q r, (q, r) ∈ tg.refs → d ∈ ldeps c t (q, r) →
+        (∀ dcl, c.decl t q = some dcl → skipsRhs c w r dcl.nestedRefs = false) →
         ∃ dcl v, c.decl t q = some dcl ∧ resolveRhs c w r dcl.nestedRefs = some v ∧ dcl.valid v = true ∧
           vals'[q]? = some (some v))
 
